@@ -83,6 +83,7 @@ pub enum Base {
     MorePing,
     HandlerErr,
     StreamHelperMid,
+    StreamLeftOpen,
 }
 
 pub const ALL_BASES: &[Base] = &[
@@ -114,6 +115,7 @@ pub const ALL_BASES: &[Base] = &[
     Base::MorePing,
     Base::HandlerErr,
     Base::StreamHelperMid,
+    Base::StreamLeftOpen,
 ];
 
 /// a request kind = base behaviour + flags
@@ -167,6 +169,12 @@ pub fn build(cfg: &SvcCfg, k: Kind, token: &str) -> Value {
         Base::StreamHelperMid => request(
             &format!("{}.Script", a),
             Some(json!({"token": token, "script": ["c1", "r", "ei", "r", "em", "c0", "r"]})),
+            f,
+        ),
+        // an implementation that announces more replies and returns without a final one
+        Base::StreamLeftOpen => request(
+            &format!("{}.Script", a),
+            Some(json!({"token": token, "script": ["c1", "r"]})),
             f,
         ),
         Base::ScriptGatedIgnore => request(
@@ -246,7 +254,16 @@ pub fn full() -> Vec<Kind> {
         v.push(Kind(b, Flags::MORE));
         v.push(Kind(b, Flags::ONEWAY));
     }
-    for &b in &[Base::GetInfo, Base::Echo, Base::Stream2, Base::NoDot, Base::UnknownIface, Base::PingOk] {
+    for &b in &[
+        Base::GetInfo,
+        Base::Echo,
+        Base::Stream2,
+        Base::NoDot,
+        Base::UnknownIface,
+        Base::PingOk,
+        Base::StreamLeftOpen,
+        Base::StreamHelperMid,
+    ] {
         v.push(Kind(
             b,
             Flags {
